@@ -378,12 +378,8 @@ func checkPackets(c pktCase) (o pbt.Outcome) {
 				if err == nil {
 					detail := fmt.Sprintf("%s accepted packet %d (%d bytes) although frame %d (length %d) carries sequence id %d instead of %d",
 						name, pi, p.Len, corrupt, rframes[corrupt].n, rframes[corrupt].seq, frames[corrupt].seq)
-					// C11-F1: readHeaderFrom returns before the sequence check when the frame is empty
-					if rframes[corrupt].n == 0 {
-						o.Known, o.KnownWhat = "C11-F1", detail
-					} else {
-						o.Violation = detail
-					}
+					// (fixed C11-F1: empty frames used to skip the sequence check)
+					o.Violation = detail
 				}
 				return
 			}
